@@ -675,27 +675,16 @@ def abstract_big(formulas, thr: int = 25):
 
 
 def hard_check(solver, timeout_ms, *assumptions):
-    """solver.check() with a hard wall-clock limit: z3's own timeout is
-    advisory, so a watchdog thread interrupts the context."""
-    import threading
-    fired = []
-
-    def stop():
-        fired.append(1)
-        try:
-            solver.ctx.interrupt()
-        except Exception:  # noqa: BLE001
-            pass
-    tm = threading.Timer(timeout_ms / 1000.0 + 2.0, stop)
-    tm.daemon = True
-    tm.start()
+    """solver.check().  z3's own timeout is advisory; a watchdog *thread* is
+    not an option (python code running in a second thread while ctypes has
+    released the GIL inside z3 lets the garbage collector free z3 objects
+    concurrently -> heap corruption, observed).  The hard limit is therefore
+    enforced one level up: every task runs in a forked child that the pool
+    kills at its deadline (reported as inconclusive)."""
     try:
-        r = solver.check(*assumptions)
+        return solver.check(*assumptions)
     except z3.Z3Exception:
-        r = z3.unknown
-    finally:
-        tm.cancel()
-    return r
+        return z3.unknown
 
 
 class Stats:
